@@ -15,6 +15,8 @@ CONSTANTS MaxQ, Acls, CacheModes, MaxEntries,
           DevCacheKeyTruncated,  \* deviation: authorise on the full text but still key the cache by the truncated text
           DevKeyCut,             \* deviation: the normalised cache key is cut to a fixed length: "none", or the smallest
                                  \* width class ("w1" ~1 KiB, "w2" ~4 KiB, "w3" ~64 KiB) whose topics fall behind the cut
+          DevAuthBeforeSemicolon, \* deviation: the decision is taken on the text before the first ';' (pos "semi": the join clause
+                                 \* follows a ';' in the middle of the text; the upstream parser reads straight through it)
           DevStarSkipsDeny,      \* deviation: allow=["*"] counts as "nothing to enforce", the deny list is not consulted
           OnlyWide               \* TRUE: enumerate wide statements only (schedule generation)
 Topics == {"ta", "td"}
@@ -24,7 +26,7 @@ AclDef(a) == CASE a = "allow" -> [allow |-> {"ta"}, deny |-> {}]
                [] a = "open"  -> [allow |-> {}, deny |-> {}]
                [] a = "stardeny" -> [allow |-> {"*"}, deny |-> {"td"}]
 Singles == {[shape |-> s, t1 |-> t, t2 |-> "none", pos |-> "near", wide |-> "w0"] : s \in {"select", "explain", "describe", "showparts"}, t \in Topics}
-Joins == {[shape |-> s, t1 |-> a, t2 |-> b, pos |-> p, wide |-> "w0"] : s \in {"join", "explainjoin"}, a \in Topics, b \in Topics, p \in {"near", "straddle", "far", "vfar"}}
+Joins == {[shape |-> s, t1 |-> a, t2 |-> b, pos |-> p, wide |-> "w0"] : s \in {"join", "explainjoin"}, a \in Topics, b \in Topics, p \in {"near", "semi", "straddle", "far", "vfar"}}
 Others == {[shape |-> s, t1 |-> "none", t2 |-> "none", pos |-> "near", wide |-> "w0"] : s \in {"showtopics", "set"}}
 WideClasses == {"w1", "w2", "w3"}
 Rank(w) == CASE w = "w0" -> 0 [] w = "w1" -> 1 [] w = "w2" -> 2 [] w = "w3" -> 3 [] OTHER -> 9
@@ -44,7 +46,8 @@ AllowShowTopics == A.deny = {} /\ (A.allow = {} \/ "*" \in A.allow)
 TopicsOf(q) == {q.t1, q.t2} \ {"none"}              \* what the upstream reads when it executes the forwarded text
 OnFull == FixFullText \/ DevCacheKeyTruncated
 \* topics the proxy's parser finds in the text it authorises
-Vis(q) == IF OnFull \/ q.t2 = "none" \/ q.pos = "near" THEN TopicsOf(q)
+Vis(q) == IF DevAuthBeforeSemicolon /\ q.pos = "semi" THEN {q.t1}
+          ELSE IF OnFull \/ q.t2 = "none" \/ q.pos \in {"near", "semi"} THEN TopicsOf(q)
           ELSE IF q.pos = "straddle" THEN {q.t1, "frag"} ELSE {q.t1}
 \* the 512-byte prefix of a wide statement ends inside its projection: the proxy's parser finds no FROM clause
 ParseFails(q) == ~OnFull /\ q.wide # "w0"
@@ -52,7 +55,7 @@ KeyCutHits(q) == DevKeyCut # "none" /\ q.wide # "w0" /\ Rank(q.wide) >= Rank(Dev
 Key(q) == IF KeyCutHits(q) THEN [s |-> "cut", t1 |-> "cut", t2 |-> "cut", w |-> q.wide]      \* same first bytes whatever the topics
           ELSE IF FixFullText /\ ~DevCacheKeyTruncated
           THEN [s |-> q.shape, t1 |-> q.t1, t2 |-> q.t2, w |-> q.wide]       \* whitespace-normalised full text
-          ELSE [s |-> q.shape, t1 |-> q.t1, t2 |-> IF q.pos = "near" THEN q.t2 ELSE IF q.pos = "straddle" THEN "straddle" ELSE "far",
+          ELSE [s |-> q.shape, t1 |-> q.t1, t2 |-> IF q.pos \in {"near", "semi"} THEN q.t2 ELSE IF q.pos = "straddle" THEN "straddle" ELSE "far",
                 w |-> IF q.wide = "w0" THEN "w0" ELSE "wide"]
 Authorize(q) == IF q.shape = "set" THEN TRUE
                 ELSE IF A.allow = {} /\ A.deny = {} THEN TRUE
